@@ -119,6 +119,10 @@ fn bodies() -> Vec<Vec<Op>> {
         vec![Op::Typed(Kind::Username, b"u".to_vec()), Op::Typed(Kind::Realm, b"re".to_vec())],
         vec![Op::Typed(Kind::UnknownAttributes, vec![0, 6]), Op::Typed(Kind::Priority, vec![0, 0, 1, 2])],
         vec![Op::Raw(0x7F00, vec![]), Op::Typed(Kind::Nonce, b"nonce-1".to_vec())],
+        // the attributes of the RFC 8489 long-term credential flow: what a message says about password
+        // algorithms does not change the key the property pins (MD5(user:realm:password)); seed C04-o
+        vec![Op::Typed(Kind::Username, b"user".to_vec()), Op::Typed(Kind::Realm, b"realm.example".to_vec()), Op::Typed(Kind::Nonce, b"obMatJos2AAACf//499k954d6OL34oL9FSTvy64sA".to_vec()), Op::Typed(Kind::PasswordAlgorithm, vec![0, 2, 0, 0])],
+        vec![Op::Typed(Kind::Userhash, (1..=32).collect()), Op::Typed(Kind::PasswordAlgorithm, vec![0, 1, 0, 0]), Op::Typed(Kind::PasswordAlgorithms, vec![0, 1, 0, 0, 0, 2, 0, 0])],
     ]
 }
 
@@ -530,7 +534,7 @@ pub fn run(ctx: &Ctx) -> Report {
     Report {
         acc,
         exhaustive: true,
-        rule: "8 bodies x fingerprint yes/no x 8 credentials x {SHA-1, SHA-256, both} sealed by the real builder (plus the cross product 4 classes x 3 methods x 8 credentials x 3 sealings x fingerprint x 3 bodies with a reduced fault set: bit flips of the type / length field and of the integrity attributes, alternative HMAC values and keys) (build(), and write_into() a used buffer before / after into_owned()); reference-serialised messages with SHA-256 truncated to 12..36 bytes, MI256-before-MI order and mixed correctness; on each: every single-bit flip and every byte value at every position from offset 0 through the end of the last integrity attribute, plausible alternative HMAC values in each integrity attribute (other length fields, other ranges, the other hash), every corrupted buffer of a fingerprinted message also with its FINGERPRINT recomputed, CRC-preserving forgeries (a covered byte changed and the tail of the HMAC chosen so that the FINGERPRINT value stays), each corrupted copy validated right after its original, up to 25 near-miss keys (case, trailing space / NUL, prefixes of 16/20/32/63/64/65/128 bytes, other credential kind, swapped parts); decorated credentials (quotes, blanks, trailing dot, mixed case, non-ASCII in each part) with their cleaned forms as alternative keys; key-length sweep: short-term passwords of every length 0..=140 and long-term credentials with parts of 0..200 bytes x {SHA-1, SHA-256, both} x {builder, reference serialiser}; unsealed bodies x 8 credentials; single-preemption interleavings: validate (SHA-1 + FINGERPRINT, SHA-256), seal and parse under long- and short-term credentials stopped at every tracing point of the library while one of eight other operations under other credentials runs to completion on another thread; distinct_nontrivial = sealed buffers".into(),
+        rule: "10 bodies (two with the attributes of the long-term credential flow: PASSWORD-ALGORITHM SHA-256 / MD5, PASSWORD-ALGORITHMS, USERHASH, REALM, NONCE) x fingerprint yes/no x 8 credentials x {SHA-1, SHA-256, both} sealed by the real builder (plus the cross product 4 classes x 3 methods x 8 credentials x 3 sealings x fingerprint x 3 bodies with a reduced fault set: bit flips of the type / length field and of the integrity attributes, alternative HMAC values and keys) (build(), and write_into() a used buffer before / after into_owned()); reference-serialised messages with SHA-256 truncated to 12..36 bytes, MI256-before-MI order and mixed correctness; on each: every single-bit flip and every byte value at every position from offset 0 through the end of the last integrity attribute, plausible alternative HMAC values in each integrity attribute (other length fields, other ranges, the other hash), every corrupted buffer of a fingerprinted message also with its FINGERPRINT recomputed, CRC-preserving forgeries (a covered byte changed and the tail of the HMAC chosen so that the FINGERPRINT value stays), each corrupted copy validated right after its original, up to 25 near-miss keys (case, trailing space / NUL, prefixes of 16/20/32/63/64/65/128 bytes, other credential kind, swapped parts); decorated credentials (quotes, blanks, trailing dot, mixed case, non-ASCII in each part) with their cleaned forms as alternative keys; key-length sweep: short-term passwords of every length 0..=140 and long-term credentials with parts of 0..200 bytes x {SHA-1, SHA-256, both} x {builder, reference serialiser}; unsealed bodies x 8 credentials; single-preemption interleavings: validate (SHA-1 + FINGERPRINT, SHA-256), seal and parse under long- and short-term credentials stopped at every tracing point of the library while one of eight other operations under other credentials runs to completion on another thread; distinct_nontrivial = sealed buffers".into(),
         bounds: json!({"sealed_buffers": n_sealed, "unsealed": unsealed.len(), "faults": if thorough { "single bit, all byte values, length-bit x any-bit pairs" } else { "single bit, all byte values" }}),
         assumptions: vec!["HMAC-SHA1/SHA-256 collision resistance (no forgery that needs to break the MAC is explored)".into(), "keys outside the alternative-key alphabet are not explored".into()],
         ..Default::default()
